@@ -263,4 +263,39 @@ func TestC11Grid(t *testing.T) {
 		n++
 	}
 	h.AddExtra("C11", "giant_cases_enumerated", n)
+	// texts whose digit count is a round number of words (a power of two, or a multiple of 2048) plus 0, 7 or 18
+	// digits: a reader that collects digits or words in blocks has its boundaries there
+	m := 0
+	for _, words := range []int{64, 128, 256, 512, 1024, 2048, 4096, 6144, 8192} {
+		for _, extra := range []int{0, 7, 18} {
+			var b strings.Builder
+			for b.Len() < 19*words+extra {
+				fmt.Fprintf(&b, "%019d", next()%h.Base)
+			}
+			d := []byte(b.String()[:19*words+extra])
+			if d[0] == '0' {
+				d[0] = '7'
+			}
+			if d[len(d)-1] == '0' {
+				d[len(d)-1] = '3'
+			}
+			for _, f := range []string{"e", "text"} {
+				c := C11Case{X: h.Spec{F: "f", D: string(d), E: int64(m%7) - 3, Neg: m%2 == 1, P: uint(len(d)), M: 0}, Fmt: f, Base: 10, RM: uint8(m % 6)}
+				o := &h.Obs{}
+				o.Label("block-sized-text")
+				if fl := propC11.SafeCheck(c, o); fl != nil {
+					h.ReportGridFail(t, "C11", fl, mustJSON(struct {
+						Digits int
+						Fmt    string
+					}{len(d), f}))
+				}
+				h.RecordGrid("C11", o, struct {
+					Digits int
+					Fmt    string
+				}{len(d), f})
+				m++
+			}
+		}
+	}
+	h.AddExtra("C11", "block_sized_texts_enumerated", m)
 }
